@@ -10,15 +10,24 @@ CLAIM = ("operator*(qua,vec3/vec4), gtx rotate, mat3_cast/mat4_cast, quat_cast (
          "angle/axis/angleAxis, qua(u,v), gtx rotation(u,v), every gtx/euler_angles constructor (single, double, all 12 triple orders, yawPitchRoll, orientate*, derived*) "
          "and extractEulerAngle* and quat(eulerAngles(q)) are executed symbolically from their clang IR in rounding-erased real arithmetic; the solver shows, for every unit "
          "quaternion / vector / angle tuple, that they agree with the mathematical definitions (v -> q v q*, products of single-axis rotation matrices) and with each other, "
-         "in the default and the GLM_FORCE_QUAT_DATA_WXYZ layout; bit-precisely the two layouts yield identical named components.")
+         "in the default and the GLM_FORCE_QUAT_DATA_WXYZ layout; bit-precisely the two layouts yield identical named components. "
+         "Decision level: on a free symbolic 3x3/4x4 matrix quat_cast (and qua(mat)) makes the strictly largest of the four candidates 4q_k^2-1 the pivot (+sqrt(candidate+1)/2) and derives every other "
+         "component from it; pitch/yaw/roll/eulerAngles return exactly atan2(R21,R22) / asin(-R20) / atan2(R10,R00) of the rotation matrix of q as the same function applications, and "
+         "2 atan2(x,w) / 0 exactly when their epsilon guards hold; code-free lemma chains show that these angles rebuild the rotation of q (regular branches) and q itself at exact gimbal lock. "
+         "For each of the 12 orders eulerAngleABC(extractEulerAngleABC(M)) == M for the rotation matrix M of every unit quaternion off the gimbal lock of that order, by a per-order chain of "
+         "polynomial identities of the entries (decided in the quaternion components) and scalar links over the executor's own atan2/sqrt axioms.")
 BOUNDS = ("rounding-erased semantics (every + - * / exact, sqrt algebraic); sin/cos/acos/asin/atan2 as real variables constrained only by true identities (engine/realtrig.py); "
           "all unit quaternions (w^2+x^2+y^2+z^2 = 1), all vectors, all angle tuples; float and double instantiations; XYZW and WXYZ layouts")
 OUTSIDE = ("size of the rounding error (closeness claims near w~0, w~+-1, gimbal lock are decided only in exact arithmetic; branch conditions are those of the exact values); "
            "qua(u,v)/rotation(u,v) on their 'opposite vectors' fallback branches only up to the orthogonality of the chosen axis; rotation(u,v) in its cos>=1-eps shortcut returns the identity "
-           "(u and v then differ by < sqrt(2 eps)); extractEulerAngle*/eulerAngles round trips are attempted with a cap and reported as optional; memory order of the components (C16)")
+           "(u and v then differ by < sqrt(2 eps)); quat_cast when two candidates tie for the largest (there only the rotation-matrix round trip, not the free-matrix pivot rule); "
+           "eulerAngles inside the epsilon guard but off the exact singularity (the guarded value is then an approximation: only the returned formula is checked, the rebuild q only at R21 == R22 == 0); "
+           "extractEulerAngleABC at gimbal lock / t2 in {0, pi} (first atan2 evaluated at the origin: the chain assumes its hypotenuse > 0) and on matrices that are not rotations; "
+           "memory order of the components (C16)")
 ASSUMPTIONS = ['layout differential: IEEE addition and multiplication are commutative (operands are sorted before the two builds are compared)',
                'float/double literals that are the correctly rounded value of k*pi/4 denote k*pi/4 in the rounding-erased semantics (C11 checks the literals themselves)',
-               'libm sin/cos/acos/asin/atan2 are the mathematical functions (only identities true of the real functions are used)']
+               'libm sin/cos/acos/asin/atan2 are the mathematical functions (only identities true of the real functions are used)',
+               'lemmas euler.* / gimbal.*: scalar variables stand for cos/sin of the angles and carry exactly the facts engine/realtrig.py attaches to atan2 / asin plus the double-angle identities and cos(yaw/2) > 0 (|yaw| <= pi/2)']
 
 FT = {'f32': 'float', 'f64': 'double'}
 INC = ['glm/glm.hpp', 'glm/gtc/quaternion.hpp', 'glm/gtx/quaternion.hpp', 'glm/gtx/euler_angles.hpp', 'glm/gtx/rotate_vector.hpp', 'glm/gtc/matrix_transform.hpp']
@@ -208,9 +217,17 @@ def linearise(t, tab=None):
                 r = x.decl()(*[go(c) for c in x.children()])
         memo[k] = r; return r
     return go(t)
-def staged(S, name, goal, pre_hyps, all_hyps, replay, timeout, meta):
+def staged(S, name, goal, pre_hyps, all_hyps, replay, timeout, meta, focus=None):
     """decision-level obligation, cheapest route first: (A) hypothesis-free on the monomial-abstracted goal (linear arithmetic; decides 'same polynomial, same function application'),
     (B) under the precondition only (exact arithmetic, no trig axioms): unsat proves it, a model is only a candidate and counts when the native replay reproduces it, (C) the full query"""
+    if focus is not None:       # (F) only the function axioms that talk about the focus terms (and the inputs): a sub-conjunction of the hypotheses, so 'unsat' is a proof
+        cm = {}; keep = term_consts(goal, cm) | {realtrig.PI_NAME}
+        for x in list(pre_hyps) + list(focus): keep = keep | term_consts(x, cm)
+        rel = [a for a in all_hyps if term_consts(a, cm) <= keep]
+        r, m, dt, used = S.query(rel + [z3.Not(goal)], 10, 'nra')
+        if r == 'unsat':
+            S.rec(name=name, solver=used + ' (%d of %d hypotheses: those over the inputs and the focus terms)' % (len(rel), len(all_hyps)), result='unsat', time_s=round(dt, 3), status='discharged', mandatory=True, **meta); return
+        S.prove(name, goal, all_hyps, timeout=timeout, solver='nra', replay=replay, **meta); return
     t0 = time.time(); r, m, dt, used = S.query([z3.Not(linearise(goal))], 10, 'z3')
     if r == 'unsat':
         S.rec(name=name, solver='z3 (hypothesis-free; non-linear monomials abstracted to fresh reals)', result='unsat', time_s=round(dt, 3), status='discharged', mandatory=True, **meta); return
@@ -225,7 +242,7 @@ def staged(S, name, goal, pre_hyps, all_hyps, replay, timeout, meta):
             S.violations.append((name, info)); return
     S.prove(name, goal, all_hyps, timeout=timeout, solver='nra', replay=replay, **meta)
 
-def chk(S, unit, fn, spec, pre=None, setup=None, abstract_side=False, staged_if=None, **kw):
+def chk(S, unit, fn, spec, pre=None, setup=None, abstract_side=False, staged_if=None, focus=None, **kw):
     """check_fn in real mode; spec(i, o, T) gets a Trig context bound to the executor that ran the code; setup(res, T) may instantiate lemmas.
     abstract_side: the executor's side obligations (sqrt/division domains, traps) are discharged on a generalisation in which merged-path If-terms are fresh reals"""
     box = {}
@@ -233,7 +250,7 @@ def chk(S, unit, fn, spec, pre=None, setup=None, abstract_side=False, staged_if=
         box['T'] = Trig(res.ex); box['res'] = res
         box['extra'] = list(setup(res, box['T']) or []) if setup else []
         return box['extra']
-    kw.setdefault('mode', 'real'); kw.setdefault('timeout', S.cap(40, 120)); kw.setdefault('solver', 'nra')
+    kw.setdefault('mode', 'real'); kw.setdefault('timeout', S.cap(60, 150)); kw.setdefault('solver', 'nra')
     if abstract_side: kw['side'] = False
     full = lambda i, o: spec(i, o, box['T'])
     def sp(i, o):
@@ -246,7 +263,7 @@ def chk(S, unit, fn, spec, pre=None, setup=None, abstract_side=False, staged_if=
             if not staged_if(label): rest.append((label, g)); continue
             oname = '%s.%s' % (name, label)
             staged(S, oname, goal_term(g), p, p + box['extra'] + res.axioms, S._replayer(res, (full, label), pre, unit, fn, 'real', oname), kw['timeout'],
-                   dict(kind='spec', functions=['w_' + fn], bounds=kw.get('bounds', '')))
+                   dict(kind='spec', functions=['w_' + fn], bounds=kw.get('bounds', '')), focus=(focus or {}).get(label))
         return rest
     res = S.check_fn(unit, fn, sp, pre, extra_hyps=xh, ex=mkex, **kw)
     if abstract_side and res is not None:
@@ -502,7 +519,7 @@ def job_eulerq(lay, t):
     """pitch/yaw/roll/eulerAngles of a unit quaternion, INCLUDING the guarded singular branches (decision level + value level)"""
     Un = UNITS[lay]; eps = EPS[t]
     def run(S):
-        box = {}
+        box = {}; foc = {}
         def terms(q, T):
             A = euler_spec_args(q)
             A['gP'] = z3.And(absle(A['xP'], eps), absle(A['yP'], eps)); A['gR'] = z3.And(absle(A['xR'], eps), absle(A['yR'], eps))
@@ -517,9 +534,178 @@ def job_eulerq(lay, t):
                 g += [(tag + 'pitch.singular==2atan2(x,w)', RGoal('eq', P, A['P.sing'], A['gP'])), (tag + 'pitch.regular==atan2(R21,R22)', RGoal('eq', P, A['P.reg'], z3.Not(A['gP']))),
                       (tag + 'roll.singular==0', RGoal('eq', Rl, ZERO, A['gR'])), (tag + 'roll.regular==atan2(R10,R00)', RGoal('eq', Rl, A['R.reg'], z3.Not(A['gR']))),
                       (tag + 'yaw.sin==-R20', REq(T.sin(Y), A['sY'])), (tag + 'yaw.cos>=0', RGoal('ge', T.cos(Y), ZERO))]
+                if not is_num(Y): foc[tag + 'yaw.sin==-R20'] = foc[tag + 'yaw.cos>=0'] = [Y, T.sin(Y), T.cos(Y)]
             return g
-        chk(S, Un, 'pyr_' + t, spec, lambda i: [unit(i[0])], setup=setup, staged_if=lambda l: 'pitch' in l or 'roll' in l,
+        chk(S, Un, 'pyr_' + t, spec, lambda i: [unit(i[0])], setup=setup, staged_if=lambda l: True, focus=foc,
             bounds='all unit q; guard |R22|,|R21| <= epsilon<T>() (pitch) / |R00|,|R10| <= epsilon<T>() (roll) decided on the exact values; atan2/asin as shared function applications')
+    return run
+
+# ------------------------------------------------------------------------------------------------ extractEulerAngleABC: generic lemma chain
+def term_consts(t, memo):
+    k = t.get_id()
+    if k in memo: return memo[k]
+    if z3.is_const(t): r = frozenset() if (z3.is_rational_value(t) or z3.is_int_value(t) or z3.is_true(t) or z3.is_false(t)) else frozenset([t.decl().name()])
+    else:
+        r = frozenset()
+        for c in t.children(): r = r | term_consts(c, memo)
+    memo[k] = r; return r
+def abstract_over(t, names, tab):
+    """generalisation: every maximal real subterm built only from the constants in `names` (the quaternion components) becomes a fresh real, one per polynomial (up to sign);
+    valid generalised formula => valid formula.  Used for the scalar links of a chain, where the matrix entries are opaque numbers."""
+    memo = {}; cm = {}
+    def go(x):
+        k = x.get_id()
+        if k in memo: return memo[k]
+        cs = term_consts(x, cm)
+        if not cs or not z3.is_app(x): r = x
+        elif z3.is_real(x) and cs <= names:
+            p = realtrig.poly_of(x); c0 = p.t.get((), Fraction(0)); p0 = realtrig._Poly({m: c for m, c in p.t.items() if m != ()}, p.atoms)
+            lead = p0.t[sorted(p0.t)[0]]; sg = -1 if lead < 0 else 1; key = p0.scale(sg).key()
+            v = tab.setdefault(key, z3.Real('ent!%d' % len(tab)))
+            r = v if sg == 1 else -v
+            if c0: r = r + z3.RealVal(str(c0))
+        else: r = x.decl()(*[go(c) for c in x.children()]) if x.num_args() else x
+        memo[k] = r; return r
+    return go(t)
+def conjuncts(axioms):
+    out = []
+    def go(a):
+        if z3.is_and(a):
+            for c in a.children(): go(c)
+        else: out.append(a)
+    for a in axioms: go(a)
+    return out
+def job_extract(t, orders, lay='xyzw'):
+    """extractEulerAngleABC(M) followed by eulerAngleABC rebuilds M, for M = rotation matrix of a unit quaternion with the first atan2 off the origin (no gimbal lock / t2 not 0 or pi):
+    the code runs on nine opaque entries; the chain consists of (poly) polynomial identities of the entries, decided after writing the entries in a unit quaternion (a model is
+    replayed natively), and (link) scalar steps over the opaque entries.  Every fact about atan2/sqrt used is, literally, a conjunct of the executor's axioms for THIS run."""
+    Un = UNITS[lay]; tol = 2e-3 if t == 'f32' else 1e-6
+    def run(S):
+        for n in orders:
+            fn = 'xea%s_%s' % (n, t); name = '%s.%s' % (Un.name, fn)
+            q = list(z3.Reals('q0 q1 q2 q3')); Rq = rotmat(q); UN = [unit(q)]
+            res = sym_call(Un, fn, mode='real', ex=mkex(Un, 'real', 16)); ex = res.ex; T = Trig(ex)
+            ent = res.ins[0]; Rm = [[ent[c * 3 + r] for c in range(3)] for r in range(3)]                  # opaque entries, rows[r][c]
+            inq = [(ent[c * 3 + r], Rq[r][c]) for c in range(3) for r in range(3)]
+            toq = lambda x: z3.substitute(x, *inq)
+            at = [(v, a) for k, (v, a) in ex.trig.items() if k[0] == 'atan2']
+            meta = dict(kind='spec', functions=['w_' + fn], bounds='all unit q with the first extracted atan2 off the origin; M = rotation matrix of q')
+            def shape(msg):
+                S.rec(name=name + '.chain', kind='encode', result='unsupported', status='not-encoded', note=msg, mandatory=True, functions=[fn]); S.inconclusive.append('%s.chain [%s]' % (name, msg))
+            if len(at) != 3 or len(ex.__dict__.get('sqrt_log', [])) != 1:
+                shape('shape of the extraction changed: expected three atan2 and one sqrt, found %d and %d' % (len(at), len(ex.__dict__.get('sqrt_log', [])))); continue
+            if [d for k_, c_, d in res.obligations] != ['sqrt of negative']:
+                shape('unexpected executor side obligations %r (only the sqrt domain is discharged by this chain)' % [d for k_, c_, d in res.obligations]); continue
+            sqa, sqv = ex.sqrt_log[0]; cj = conjuncts(res.axioms)
+            def fact(f):
+                """only literal conjuncts of the executor's axioms may be used as facts about atan2/sqrt"""
+                assert any(f.eq(c) for c in cj), 'not an axiom of this run: %s' % f
+                return f
+            rr = [ex.trig_hyp[v.sexpr()] for v, a in at]; cs = [(T.cos(v), T.sin(v)) for v, a in at]
+            (y1, x1), (y2, x2), (y3, x3) = [a for v, a in at]; r1, r2, r3 = rr; (c1, s1), (c2, s2), (c3, s3) = cs
+            A = [[fact(r * c == x), fact(r * s_ == y), fact(r * r == x * x + y * y), fact(r >= 0)] for r, (c, s_), (y, x) in zip(rr, cs, [a for v, a in at])]
+            SQ = [fact(sqv * sqv == sqa), fact(sqv >= 0)]
+            en = frozenset(x.decl().name() for x in ent)
+            par = [a for a in res.axioms if not (term_consts(a, {}) & en)]          # entry-free axioms: parity of sin/cos under t -> -t, sin^2+cos^2 = 1, ranges
+            def native_replay(m):
+                vals = [float(z3val_to_fraction(m.eval(x, model_completion=True))) for x in q]; nrm = math.sqrt(sum(v * v for v in vals)) or 1.0; vals = [v / nrm for v in vals]
+                Rn = rotmat([z3.RealVal(repr(v)) for v in vals]); Mx = [[float(z3val_to_fraction(z3.simplify(Rn[r][c]))) for c in range(3)] for r in range(3)]
+                w = 32 if t == 'f32' else 64
+                bits = [[float_to_bits(Mx[r][c], w) for c in range(3) for r in range(3)]]
+                nat = Un.call_native(fn, bits); info = {'unit': Un.name, 'fn': fn, 'inputs': [[hex(v) for v in bits[0]]], 'q': vals, 'native_out': [[hex(v) for v in r_] for r_ in nat], 'property': 'C04', 'obligation': name}
+                bad = False
+                for r in range(3):
+                    for c in range(3):
+                        g = bits_to_float(nat[0][c * 4 + r], w); want = bits_to_float(bits[0][c * 3 + r], w)
+                        if g != g or abs(g - want) > tol: bad = True
+                return ('reproduced' if bad else 'not-reproduced'), info
+            def P(label, goal, hyps, poly=False):
+                if poly:
+                    # unrestricted query decides; when its model is a degenerate rotation on which the native run happens to agree, a second model in general position is tried
+                    oname = '%s.chain.%s' % (name, label); g = toq(goal); hy = [toq(h) for h in hyps] + UN; to = S.cap(30, 90)
+                    r_, m_, dt, used = S.query(hy + [z3.Not(g)], to, 'nra')
+                    if r_ == 'sat' and native_replay(m_)[0] != 'reproduced':
+                        r2_, m2_, dt2, _ = S.query(hy + generic + [z3.Not(g)], to, 'nra')
+                        if r2_ == 'sat' and native_replay(m2_)[0] == 'reproduced':
+                            S.rec(name=oname, solver=used + ' (second model in general position)', result='sat', time_s=round(dt + dt2, 3), status='counterexample', replay='reproduced', replay_info=native_replay(m2_)[1], mandatory=True, **meta)
+                            S.violations.append((oname, native_replay(m2_)[1])); return
+                    S.prove(oname, g, hy, timeout=to, solver='nra', replay=native_replay, **meta)
+                else: S.prove('%s.chain.%s' % (name, label), goal, list(hyps), timeout=S.cap(30, 90), solver='nra', replay=lambda m: ('no-replay', {'note': 'scalar link of the chain (opaque entries)'}), **meta)
+            reg = r1 > 0; rho2 = x1 * x1 + y1 * y1
+            generic = [x * x >= z3.RealVal('1/25') for x in q] + [toq(rho2) >= z3.RealVal('1/10')]
+            P('sqrt.domain', sqa >= 0, [], poly=True)
+            L1 = rho2 == sqa; P('hyp1^2==sqrt.arg', L1, [], poly=True)
+            P('hyp1==sqrt', r1 == sqv, [A[0][2], L1] + SQ + [A[0][3]])
+            if not (x2.eq(sqv) or y2.eq(sqv)): shape('second atan2 does not take the square root as an argument'); continue
+            e = y2 if x2.eq(sqv) else x2
+            L3 = sqa + e * e == 1; P('sqrt.arg+e^2==1', L3, [], poly=True)
+            P('hyp2==1', r2 == 1, [A[1][2], SQ[0], L3, A[1][3]])
+            P('cos2==x2', c2 == x2, [r2 == 1, A[1][0]]); P('sin2==y2', s2 == y2, [r2 == 1, A[1][1]])
+            sub1 = [(c1, x1), (s1, y1)]; X3, Y3 = z3.substitute(x3, *sub1), z3.substitute(y3, *sub1)
+            P('hyp1*x3', r1 * x3 == X3, A[0][:2]); P('hyp1*y3', r1 * y3 == Y3, A[0][:2])
+            # which entry (up to sign) the two cofactor-like combinations are: chosen by evaluation at one rotation, then proved for all
+            probe = [(a_, z3.RealVal(str(Fraction(b_, 9)))) for a_, b_ in zip(q, (2, 4, 5, 6))]
+            def pick(Z):
+                zv = z3val_to_fraction(z3.simplify(z3.substitute(toq(Z), *probe)))
+                for r in range(3):
+                    for c in range(3):
+                        ev = z3val_to_fraction(z3.simplify(z3.substitute(Rq[r][c], *probe)))
+                        if ev == zv: return Rm[r][c]
+                        if ev == -zv: return -Rm[r][c]
+                return None
+            m3x, m3y = pick(X3), pick(Y3)
+            if m3x is None or m3y is None:
+                P('circle3.direct: (hyp1 x3)^2+(hyp1 y3)^2 == hyp1^2', X3 * X3 + Y3 * Y3 == rho2, [], poly=True)        # necessary for the rebuild; its model (if any) is replayed natively
+                shape('third atan2: arguments are not +-entries of the matrix after scaling by the first hypotenuse'); continue
+            L7x = X3 == m3x; L7y = Y3 == m3y; P('cofactor.x3', L7x, [], poly=True); P('cofactor.y3', L7y, [], poly=True)
+            L8 = m3x * m3x + m3y * m3y == rho2; P('circle3', L8, [], poly=True)
+            u_, v_, U_, V_, mx_, my_, R2_ = z3.Reals('x3!g y3!g X3!g Y3!g m3x!g m3y!g rho2!g')
+            def gen(x):
+                for a_, b_ in ((X3, U_), (Y3, V_), (x3, u_), (y3, v_), (rho2, R2_), (m3x, mx_), (m3y, my_)): x = z3.substitute(x, (a_, b_))
+                return x
+            H9 = [gen(h) for h in (A[2][2], r1 * x3 == X3, r1 * y3 == Y3, L7x, L7y, L8, A[0][2], reg, A[2][3])]          # compound terms generalised to fresh reals
+            P('hyp3.circle', r1 * r1 * (u_ * u_ + v_ * v_) == R2_, H9[1:6]); P('hyp3^2==1', r3 * r3 == 1, [H9[0], r1 * r1 * (u_ * u_ + v_ * v_) == R2_, H9[6], H9[7]])
+            P('hyp3==1', r3 == 1, [r3 * r3 == 1, A[2][3]])
+            P('cos3*hyp1', r1 * c3 == m3x, [r3 == 1, A[2][0], r1 * x3 == X3, L7x]); P('sin3*hyp1', r1 * s3 == m3y, [r3 == 1, A[2][1], r1 * y3 == Y3, L7y])
+            # entries of the rebuilt matrix
+            G = M(res.outs[0], 4, 4)
+            neg = {}
+            for key, (v, argt) in ex.trig.items():
+                if key[0] in ('sin', 'cos') and len(argt) == 1:
+                    for i_, (av, _) in enumerate(at):
+                        if z3.simplify(argt[0] + av).eq(z3.RealVal(0)): neg[v.get_id()] = (v, cs[i_][0] if key[0] == 'cos' else -cs[i_][1])
+            base = {c1.get_id(): (x1, 1), s1.get_id(): (y1, 1), c3.get_id(): (m3x, 1), s3.get_id(): (m3y, 1), c2.get_id(): (x2, 0), s2.get_id(): (y2, 0)}
+            links = A[0][:2] + [r1 * c3 == m3x, r1 * s3 == m3y, c2 == x2, s2 == y2]
+            for r in range(3):
+                for c in range(3):
+                    N = G[r][c]; Ns = z3.substitute(N, *neg.values()) if neg else N
+                    P('entry[r%dc%d].parity' % (r, c), N == Ns, par)
+                    p = realtrig.poly_of(z3.simplify(Ns)); Z = []; ok = True
+                    for mono, coef in p.t.items():
+                        d = 0; f = z3.RealVal(str(coef))
+                        for k_ in mono:
+                            a_ = p.atoms[k_]
+                            if a_.get_id() not in base: ok = False; break
+                            rep, dd = base[a_.get_id()]; d += dd; f = f * rep
+                        if not ok or d > 2: ok = False; break
+                        Z.append((f, 2 - d))
+                    if not ok: shape('entry[r%dc%d]: rebuilt entry is not a polynomial of degree <= 2 in the cos/sin of the extracted angles' % (r, c)); continue
+                    Zt = sum_([f * r1 * r1 if k_ == 2 else (f * r1 if k_ == 1 else f) for f, k_ in Z]) if Z else ZERO
+                    P('entry[r%dc%d].scaled' % (r, c), r1 * r1 * Ns == Zt, links)
+                    # reduce modulo hyp1 == sqrt, hyp1^2 == rho2: Zt = even + hyp1 * odd with even, odd polynomials of the entries alone
+                    pz = realtrig.poly_of(z3.substitute(Zt, (sqv, r1))); rk = r1.sexpr(); even = []; odd = []
+                    for mono, coef in pz.t.items():
+                        k_ = sum(1 for a_ in mono if a_ == rk); f = z3.RealVal(str(coef))
+                        for a_ in mono:
+                            if a_ != rk: f = f * pz.atoms[a_]
+                        for _ in range(k_ // 2): f = f * rho2
+                        (odd if k_ % 2 else even).append(f)
+                    Ev = sum_(even) if even else ZERO; Od = sum_(odd) if odd else ZERO
+                    P('entry[r%dc%d].reduce' % (r, c), Zt == Ev + r1 * Od, [r1 == sqv, A[0][2]])
+                    P('entry[r%dc%d].identity.even' % (r, c), Ev == rho2 * Rm[r][c], [], poly=True)
+                    P('entry[r%dc%d].identity.odd' % (r, c), Od == 0, [], poly=True)
+                    Nn, Nsn, Ztn, Evn, Odn, Mn = z3.Reals('N!g Ns!g Z!g even!g odd!g M!g')         # final step with the compound terms generalised to fresh reals (same instance for every entry)
+                    P('entry[r%dc%d]' % (r, c), Nn == Mn, [Nn == Nsn, r1 * r1 * Nsn == Ztn, Ztn == Evn + r1 * Odn, Evn == R2_ * Mn, Odn == 0, r1 * r1 == R2_, reg])
     return run
 
 def fp_canon(t, memo=None):
@@ -577,4 +763,5 @@ def jobs(tier):
         J.append(('euler_wxyz_%s' % t, job_euler(t, ['qeul'], 'wxyz')))
         for k in range(0, len(names), 7): J.append(('euler_%s_%d' % (t, k // 7), job_euler(t, names[k:k + 7])))
         J.append(('layout_' + t, job_layout(t, ['qv', 'm3', 'rt', 'mm', 'inv', 'aa', 'uv', 'rot', 'qeul', 'eulq'])))
+        for k in range(0, 12, 3): J.append(('extract_%s_%d' % (t, k // 3), job_extract(t, EULER3[k:k + 3])))
     return J
